@@ -45,7 +45,12 @@ META = dict(
          "evaluation over all digit strings of length <= 3)) and identifier_language (accepted <=> one character of the "
          "pattern's initial class - ASCII letters, '_', U+00AA U+00B5 U+00BA U+00C0-D6 U+00D8-F6 U+00F8-FF - followed by "
          "characters of the body class = initial class + digits + U+00B7; the classes are those of the live reString, "
-         "nothing is claimed about str.isidentifier). For ieee_float, "
+         "nothing is claimed about str.isidentifier), and ieee_float_language (accepted <=> optional sign, then an "
+         "fnumber body with e/E exponent, or nan / inf / infinity in any letter case; ieee_sim: the (?i:...) AST has the "
+         "same matches as the fnumber-shaped AST because its character sets have the same members; helper lemmas "
+         "PPProofs/Lemmas/RegexCI.lean; case folding is the MODEL's ASCII folding - CPython's extra IGNORECASE "
+         "equivalences for str patterns, e.g. U+0131 dotless i / U+0130 for 'i', are not modelled, the statement is about "
+         "ASCII text). For "
          "mac_address (back-reference: needs capture-aware lemmas about the matcher `m`), iso8601_datetime, number, "
          "fraction, ipv6 parts and the quoted-string built-ins only the generated-fact obligations (*_pattern_ast, "
          "*_leaves_fact, *_quoted_string_fact: live pattern = pinned AST, checked by the kernel on every run) are proved; "
@@ -97,6 +102,7 @@ THEOREMS = [
     "PP.C18.ipv4_language_partial", "PP.C18.mem_octet",
     "PP.C18.ipv4_language", "PP.C18.ipv4_complete", "PP.C18.mem_octet_complete", "PP.C18.octet_head_enum",
     "PP.C18.identifier_language",
+    "PP.C18.ieee_float_language", "PP.C18.ieee_body_language", "PP.C18.ieee_sim",
     "PP.C18.sci_real_language", "PP.C18.sci_body_language", "PP.C18.ureal_first_sound", "PP.C18.ureal_first_complete",
     "PP.C18.sci_real_pattern_ast", "PP.C18.fnumber_pattern_ast",
     "PP.C18.ieee_float_pattern_ast", "PP.C18.identifier_pattern_ast", "PP.C18.ipv4_address_pattern_ast",
@@ -106,7 +112,7 @@ THEOREMS = [
 ] + cq.THEOREMS + chh.THEOREMS
 
 GEN_REL = "PPProofs/Props/Gen/Patterns.lean"
-MORE_MODULE = "PPProofs.Props.C18More"   # ipv4_language, identifier_language (imports Props/C18)
+MORE_MODULE = "PPProofs.Props.C18More"   # ipv4/identifier/ieee_float language theorems (imports Props/C18)
 
 
 # ---------------------------------------------------------------------------------------------
